@@ -64,35 +64,28 @@ def specRun (c : Consts α) (h : List (Step α)) (obs : List (Ans α)) : Bool :=
   specRunWith Policy.ideal c h obs
 
 /-! The explicit side condition under which the pinned code meets the specification: the history
-    never presents an unsigned document to a source with a certificate (F9), never answers an
-    MDQ source that has a certificate with a document whose signature does not verify (F11), and
-    contains no entity with a non-SAML-2.0 descriptor beside a SAML 2.0 descriptor of the same
-    kind (F18). -/
+    never presents an unsigned document to a source with a certificate (F9) and never answers an
+    MDQ source that has a certificate with a document whose signature does not verify (F11). -/
 
-/-- no descriptor lacks SAML 2.0 while another descriptor of the same kind names it (F18) -/
-def entClean (p2 : α) (e : Ent α) : Bool :=
-  e.roles.all (fun r => saml2 p2 r || !kindSupported p2 e r.kind)
-
-def specClean (p2 : α) (sp : SrcSpec α) : Bool :=
+def specClean (sp : SrcSpec α) : Bool :=
   match sp.fetch with
-  | .doc d => !(effCert sp.kind sp.cert && decide (d.sig = .unsigned)) && d.entities.all (entClean p2)
+  | .doc d => !(effCert sp.kind sp.cert && decide (d.sig = .unsigned))
   | _ => true
 
-def respClean (p2 : α) (st : Store α) (r : MdqResp α) : Bool :=
+def respClean (st : Store α) (r : MdqResp α) : Bool :=
   match r.fetch with
   | .doc d =>
-    (!(st.any (fun s => decide (s.kind = .mdq) && s.cert && decide (s.key = r.src))) || decide (d.sig = .valid))
-      && d.entities.all (entClean p2)
+    !(st.any (fun s => decide (s.kind = .mdq) && s.cert && decide (s.key = r.src))) || decide (d.sig = .valid)
   | _ => true
 
-def cleanStep (p2 : α) (st : Store α) (s : Step α) : Bool :=
+def cleanStep (st : Store α) (s : Step α) : Bool :=
   match s.op with
-  | .imp specs => specs.all (specClean p2)
-  | .reload specs => specs.all (specClean p2)
-  | .q _ => s.mdq.all (respClean p2 st)
+  | .imp specs => specs.all specClean
+  | .reload specs => specs.all specClean
+  | .q _ => s.mdq.all (respClean st)
 
 def cleanRun (c : Consts α) : Store α → List (Step α) → Bool
   | _, [] => true
-  | st, s :: rest => cleanStep c.p2 st s && cleanRun c (step Policy.ideal c st s).2 rest
+  | st, s :: rest => cleanStep st s && cleanRun c (step Policy.ideal c st s).2 rest
 
 end MdStore
